@@ -178,6 +178,7 @@ type Exec struct {
 	frame             *frameInfo // what the contract under verification allows the body to change (nil: no frame checking)
 	lastFieldWhole    map[string]bool // heap fields assigned as a whole (not only element-wise) in the last scanned loop body
 	lastWholeAssigned map[types.Object]bool // variables assigned as a whole (not only element-wise) in the last scanned loop body
+	paramAlias        map[string]*types.Var // contract parameter name -> parameter object (parameters bind by position)
 	decoderFn         *types.Func
 	decoderTarget     string // set by callFunc for a library decoder whose target is a blank private object (escape.go)
 	localOrd          map[types.Object]int // declaration ordinal of every local of the unit (locals.go)
@@ -464,6 +465,11 @@ func (ex *Exec) mergePaths(ps []*Path) []*Path {
 }
 
 func sameEvents(a, b []Event) bool {
+	// the event state that obligations read lives in ghost heap cells, which merge like any other heap cell; the
+	// trace kept on the path is informational
+	if os.Getenv("GOVC_STRICT_EVENT_MERGE") == "" {
+		return true
+	}
 	if len(a) != len(b) {
 		return false
 	}
@@ -527,9 +533,7 @@ func (ex *Exec) tryMerge(a, b *Path) *Path {
 	for k := range b.heap {
 		keys[k] = true
 	}
-	if a.heapGen != b.heapGen {
-		return nil
-	}
+	genDiffers := a.heapGen != b.heapGen
 	for k := range keys {
 		ta, oka := a.heap[k]
 		tb, okb := b.heap[k]
@@ -539,9 +543,38 @@ func (ex *Exec) tryMerge(a, b *Path) *Path {
 			}
 			continue
 		}
-		// one side still has the base array; we need its sort: recover from the other term is not
-		// possible syntactically, so refuse to merge.
-		return nil
+		if !genDiffers {
+			// one side still has the base array; we need its sort: recover from the other term is not
+			// possible syntactically, so refuse to merge.
+			return nil
+		}
+		// the two paths forgot the heap at different moments: the side that has not touched the key since still reads
+		// its own generation's base array
+		func() {
+			defer func() {
+				if r := recover(); r != nil {
+					if _, isU := r.(unsupported); !isU {
+						panic(r)
+					}
+					ta, tb = "", ""
+				}
+			}()
+			if !oka {
+				ta = ex.baseOf(tb, k, a)
+			}
+			if !okb {
+				tb = ex.baseOf(ta, k, b)
+			}
+		}()
+		if ta == "" || tb == "" {
+			return nil
+		}
+		m.heap[k] = ite(ca, ta, tb)
+	}
+	if genDiffers {
+		// keys neither path has materialised are unknown on both: one fresh generation stands for either
+		ex.c.fresh++
+		m.heapGen = fmt.Sprintf("g%d", ex.c.fresh)
 	}
 	if a.now != b.now {
 		m.now = ite(ca, a.now, b.now)
